@@ -30,10 +30,9 @@ func TestC08Shapes(t *testing.T) {
 	if os.Getenv("VERIF_SHARD") != "" && os.Getenv("VERIF_SHARD") != "0" {
 		t.Skip("enumerations run in shard 0")
 	}
-	core.SetRule("C08.shapes", "all 256 zero / non-zero patterns of the eight pieces, written without compression, in a special and a non-special URL: the serializer's choice of the run to compress is enumerated completely (exhaustive)")
-	n, msg := Shapes08()
+		n, msg := Shapes08()
 	if msg != "" {
-		core.ReportViolation("C08.shapes", msg, map[string]string{"note": "enumeration failure; rerun TestC08Shapes"})
+		core.ReportViolation("C08.shapes", msg, Enum{Note: "enumeration"})
 		t.Fatal(msg)
 	}
 	core.AddEvaluations("C08.shapes", int64(n), int64(n), true, map[string]string{"example": "http://[10:0:0:13:0:0:0:17]/ -> [10:0:0:13::17]"})
@@ -53,19 +52,19 @@ func TestC10Tables(t *testing.T) {
 	core.SetRule("C10.tables", "exhaustive: all 0x110000 code points (surrogates skipped) and all 256 bytes x the six named sets of the statement against tables written from the standard's definitions")
 	n, msg := Tables10()
 	if msg != "" {
-		core.ReportViolation("C10.tables", msg, map[string]string{"note": "enumeration failure; rerun TestC10Tables"})
+		core.ReportViolation("C10.tables", msg, Enum{Note: "enumeration"})
 		t.Fatal(msg)
 	}
 	core.AddEvaluations("C10.tables", n, n, true, map[string]string{"example": "FragmentPercentEncodeSet.RuneShouldBeEncoded('`') == true"})
 	core.SetRule("C10.components", "exhaustive: every ASCII code point placed in every component (userinfo, path, opaque path, opaque host, query, fragment) of special and non-special URL templates, compared with the reference model's parse")
 	n, msg = Components10()
 	if msg != "" {
-		core.ReportViolation("C10.components", msg, map[string]string{"note": "enumeration failure; rerun TestC10Tables"})
+		core.ReportViolation("C10.components", msg, Enum{Note: "enumeration"})
 		t.Fatal(msg)
 	}
 	core.AddEvaluations("C10.components", n, n, true, map[string]string{"example": "http://h/?' -> http://h/?%27 but foo://h/?' -> foo://h/?'"})
 	if msg := namedSetsUnchanged(); msg != "" {
-		core.ReportViolation("C10.tables", msg, map[string]string{})
+		core.ReportViolation("C10.tables", msg, Enum{Note: "enumeration"})
 		t.Fatal(msg)
 	}
 }
